@@ -870,6 +870,8 @@ func c14Run(c *Ctx) {
 		}
 		return 1
 	}
+	// deterministic streams: runs of equal consecutive records in every format (c14_runs.go)
+	c14RunStreams(emit)
 	n := c.Budget(120, 1500)
 	for k := 0; k < n; k++ {
 		// Go count
